@@ -211,3 +211,53 @@ def extra_rules(F, R):
                 n += 1
     R.check(ok and n == 1, "R09.9", "is_valid_input_value:oneof-exactly-one-entry", iv.where(), "`values.len() != 1` on the unfiltered entries",
             "the oneOf check does not compare the total number of entries with 1: `{a: 1, b: null}` passes validation although it has two entries")
+
+    R.rule("R09.10", "per-operation analyses start from fresh state: in exit_document of the variable rules, a visited-set handed to the recursive fragment walker "
+                     "inside the loop over operations is created inside that loop (a set shared across operations hides a fragment's variable uses from every "
+                     "operation after the first)")
+    from common import sccs
+    n10 = 0
+    # (NoUnusedFragments deliberately accumulates one reachable set over all operations and is not in this table)
+    for b in F.find(r"async_graphql::validation::rules::(no_undefined_variables|no_unused_variables|variables_in_allowed_position)::\{impl#\d+\}::exit_document$", kind="fn"):
+        comps = sccs(b)
+        for comp in comps:
+            for c in b.calls():
+                if c.bb not in comp or not c.callee or not re.search(r"validation::rules::\w+::\{impl#\d+\}::(find_\w+|detect_\w+)$", c.callee):
+                    continue
+                for i, a in enumerate(c.args):
+                    ty = c.argtys[i] if i < len(c.argtys) else ""
+                    if not re.search(r"&mut std::collections::(HashSet|HashMap)<|&mut .*(HashSet|HashMap)<", ty) or a[0] not in ("c", "m"):
+                        continue
+                    n10 += 1
+                    o, passed = trace(b, a, through_calls=False)
+                    creators = [x for k, x in o if k == "call" and x.callee and re.search(r"(HashSet|HashMap|hash::set|hash::map).*::(new|default|with_capacity)$", x.callee)]
+                    inside = [x for x in creators if x.bb in comp]
+                    key = re.sub(r"\{impl#\d+\}", "{impl}", b.defp.replace("async_graphql::validation::rules::", "")) + ":" + c.callee.split("::")[-1]
+                    R.check(bool(creators) and len(inside) == len(creators), "R09.10", "per-operation-state-fresh:" + key, c.where(),
+                            "the set is created inside the loop over operations",
+                            "the visited set passed to %s is created outside the loop over operations: fragments walked for one operation are skipped for the next, so "
+                            "an operation that does not define a variable used in a shared fragment is accepted" % c.callee.split("::")[-1])
+    R.floor("R09.10", "per-operation walker calls with a visited set", n10, 2)
+
+    R.rule("R09.11", "variable-use collection is total: referenced_variables_to_vec recurses on every element of a List and every value of an Object "
+                     "(the element closures call it unconditionally) and pushes every Variable")
+    rv = F.one(r"async_graphql::validation::utils::referenced_variables_to_vec$", kind="fn")
+    regs = enum_arm_regions(rv, r"async_graphql_value::Value$")
+    R.floor("R09.11", "Value switches in referenced_variables_to_vec", len(regs), 1)
+    for sbb, named in regs[:1]:
+        R.check({"Variable", "List", "Object"} <= set(named), "R09.11", "referenced_variables_to_vec:arms", rv.where(), "arms %s" % sorted(named), "missing arms %s" % sorted({"Variable", "List", "Object"} - set(named)))
+        R.check(bool(calls_in(rv, named.get("Variable", set()), r"vec::\{impl#\d+\}::push$")), "R09.11", "referenced_variables_to_vec:Variable-pushed", rv.where(), "pushes the name", "a Variable is not recorded")
+        for arm in ("List", "Object"):
+            cl = [F.get(cdef) for (cbb, cdef, st) in rv.closures_created() if cbb in named.get(arm, set())]
+            cl = [x for x in cl if x is not None]
+            direct = calls_in(rv, named.get(arm, set()), r"validation::utils::referenced_variables_to_vec$")
+            ok = bool(direct)
+            for x in cl:
+                rec = [c.bb for c in x.calls() if c.callee == rv.defp]
+                if rec and all(x.must_pass(rec, e) for e in x.exits()):
+                    ok = True
+                elif cl:
+                    ok = ok and False
+            R.check(ok, "R09.11", "referenced_variables_to_vec:%s-recurses-unconditionally" % arm, rv.where(), "every element is walked",
+                    "in the %s arm the per-element closure does not call referenced_variables_to_vec on every path: variables nested in some kinds of elements (e.g. a list "
+                    "inside an input object) are invisible to NoUndefinedVariables / NoUnusedVariables" % arm)
